@@ -479,9 +479,28 @@ package unmarshal
 //@ func (*parserDoer).doParseSpans$1 [C05]
 //@   flag defers-first=.tamePanic
 //@   flag may-panic
-//@ func (*parserDoer).doParseProfile$1 [C05]
+//@ func (*parserDoer).doParseProfile$1 [C01,C02,C05]
 //@   flag defers-first=.tamePanic
 //@   flag may-panic
+//@   at chan.send every-response-is-an-error-or-a-profile-with-rows: arg1.Error != nil || (typeis(arg1.ProfileRequest, "*model.ProfileData") && len(unbox(arg1.ProfileRequest, "*model.ProfileData").TimestampNs) > 0)
+
+// The profile route: a body is one profile (Parse returns one; assumed for Decode
+// below), and the insert service appends one row to every array column per request.
+// So every response the parser sends carries exactly ONE row in every scalar column
+// - never none (the shared batch would get array rows without scalar rows and
+// ClickHouse rejects the whole block, other clients' rows included) - and a profile
+// over 1 MiB is SENT when it is flushed early, not dropped while the client is told
+// 200.
+//@ spec fn profRows(d *model.ProfileData, n int) bool = len(d.TimestampNs) == n && len(d.Ptype) == n && len(d.ServiceName) == n && len(d.PeriodType) == n && len(d.PeriodUnit) == n && len(d.DurationNs) == n && len(d.PayloadType) == n && len(d.Payload) == n
+//@ func (*parserDoer).resetProfile [C02]
+//@   modifies p.profile
+//@   ensures fresh(p.profile) && profRows(p.profile, 0)
+//@ func (*parserDoer).onProfile [C01,C02,C05]
+//@   flag checks=-index,-assert
+//@   requires starts-empty: profRows(p.profile, 0)
+//@   at chan.send a-flushed-profile-is-sent-as-a-profile: typeis(arg1.ProfileRequest, "*model.ProfileData")
+//@   at chan.send a-flushed-profile-is-one-whole-row: typeis(arg1.ProfileRequest, "*model.ProfileData") ==> profRows(unbox(arg1.ProfileRequest, "*model.ProfileData"), 1)
+//@   ensures one-row-kept-or-none-after-a-flush: profRows(p.profile, 1) || profRows(p.profile, 0)
 
 // Scaling a profile timestamp to nanoseconds must terminate for every value
 // (the profile parser goroutine would otherwise spin forever on one request).
